@@ -29,6 +29,7 @@ import (
 	"sync/atomic"
 	"time"
 
+	"github.com/ichiban/prolog"
 	"github.com/ichiban/prolog/engine"
 )
 
@@ -107,22 +108,32 @@ func runImplOnce(c answersCase, answersTimeout time.Duration) string {
 	// The Go encoding of every list cell chain of the case is drawn from the payload (half of the
 	// cases keep the reader's encodings): the abstract program is the same, so are the answers.
 	enc := newEncChooser(c)
-	for _, cl := range c.clauses {
-		g, err := gtFromWire(cl)
-		if err != nil {
-			return "BAD-CASE clause"
-		}
-		t := enc.build(g, map[int]engine.Variable{}) // fresh engine variables per clause
-		ctx, cancel := context.WithTimeout(context.Background(), answersTimeout)
-		_, err = engine.Call(&i.VM, compound("assertz", t), engine.Success, nil).Force(ctx)
-		cancel()
-		if err != nil {
-			return "assert-" + errWire(err)
-		}
-	}
 	gq, err := gtFromWire(c.query)
 	if err != nil {
 		return "BAD-CASE query"
+	}
+	// A third of the cases load the program as TEXT, and only after another program defining the same
+	// predicates (most general facts) has been loaded and every predicate called once has been loaded and queried: whatever the
+	// interpreter remembers from the first program must not show in the answers of the second.
+	loaded := false
+	if enc.r.Intn(3) == 0 {
+		loaded = reconsult(i, c, gq, answersTimeout)
+	}
+	if !loaded {
+		i, _ = newInterp("")
+		for _, cl := range c.clauses {
+			g, err := gtFromWire(cl)
+			if err != nil {
+				return "BAD-CASE clause"
+			}
+			t := enc.build(g, map[int]engine.Variable{}) // fresh engine variables per clause
+			ctx, cancel := context.WithTimeout(context.Background(), answersTimeout)
+			_, err = engine.Call(&i.VM, compound("assertz", t), engine.Success, nil).Force(ctx)
+			cancel()
+			if err != nil {
+				return "assert-" + errWire(err)
+			}
+		}
 	}
 	q := enc.build(gq, map[int]engine.Variable{})
 	var out []string
@@ -148,6 +159,105 @@ func runImplOnce(c answersCase, answersTimeout time.Duration) string {
 		out = append(out, "end exhausted")
 	}
 	return strings.Join(out, " ; ")
+}
+
+// reconsult loads a decoy of the program (the heads alone, as facts), runs the query on it, then loads
+// the program itself as text (consulting replaces the definitions).  false = the text could not be
+// loaded this way (e.g. clauses of one predicate are not contiguous): the caller falls back to assertz.
+func reconsult(i *prolog.Interpreter, c answersCase, gq *gt, limit time.Duration) bool {
+	show := func(t *gt) (string, bool) {
+		wi, buf := newInterp("")
+		if r := solveOnce(&wi.VM, compound("write_term", gtToEngine(t, map[int]engine.Variable{}),
+			engine.List(compound("quoted", atom("true")), compound("ignore_ops", atom("true"))))); r != "true" {
+			return "", false
+		}
+		return buf.String(), true
+	}
+	var real, decoy strings.Builder
+	var heads []*gt
+	for _, cl := range c.clauses {
+		g, err := gtFromWire(cl)
+		if err != nil {
+			return false
+		}
+		txt, ok := show(g)
+		if !ok {
+			return false
+		}
+		real.WriteString(txt + " .\n")
+		h := g
+		if g.is(":-", 2) {
+			h = g.args[0]
+		}
+		heads = append(heads, h)
+		// the decoy: a most general fact for the head's predicate
+		dh := h
+		if h.kind == "app" {
+			vs := make([]*gt, len(h.args))
+			for j := range vs {
+				vs[j] = gVar(j)
+			}
+			dh = gApp(h.s, vs...)
+		}
+		dtxt, ok := show(dh)
+		if !ok {
+			return false
+		}
+		decoy.WriteString(dtxt + " .\n")
+	}
+	ctx, cancel := context.WithTimeout(context.Background(), limit)
+	defer cancel()
+	if err := i.ExecContext(ctx, decoy.String()); err != nil {
+		return false
+	}
+	// warm-up: call every predicate of the decoy with fresh variables (the decoy's clauses are most
+	// general facts for this purpose, so nothing is bound and nothing can loop), the predicate of the
+	// query's first goal last
+	type pk struct {
+		name  string
+		arity int
+	}
+	var order []pk
+	seen := map[pk]bool{}
+	add := func(t *gt) {
+		if t.kind == "app" || t.kind == "atom" {
+			k := pk{t.s, len(t.args)}
+			if !seen[k] {
+				seen[k] = true
+				order = append(order, k)
+			}
+		}
+	}
+	for _, h := range heads {
+		add(h)
+	}
+	first := gq
+	for first.is(",", 2) {
+		first = first.args[0]
+	}
+	if k := (pk{first.s, len(first.args)}); seen[k] {
+		for j, o := range order {
+			if o == k {
+				order = append(append(order[:j:j], order[j+1:]...), k)
+				break
+			}
+		}
+	}
+	for _, k := range order {
+		as := make([]engine.Term, k.arity)
+		for j := range as {
+			as[j] = engine.NewVariable()
+		}
+		var goal engine.Term = atom(k.name)
+		if k.arity > 0 {
+			goal = atom(k.name).Apply(as...)
+		}
+		_, _ = solve(&i.VM, goal, 1, limit, func(*engine.Env) bool { return false })
+	}
+	if err := i.ExecContext(ctx, real.String()); err != nil {
+		return false
+	}
+	return true
 }
 
 // encChooser picks, deterministically from the case, how each list of the case is encoded in Go:
